@@ -25,6 +25,7 @@ STAGES_TRUSTED = [
     'the representation invariant of handshake objects is carried as far as the per-peer object: a fresh object satisfies it (block of InitState::new), InitState::{handle_init, every_second, take_core} preserve it except on a FATAL error in the pong arm, PeerCrypto::{handle_message, handle_init_message, every_second} (unit buffer, through the shared clause files units/iface/handle_init.*, init_every_second.contract, init_take_core.ensures) preserve it for their handshake object with the same exception, and a finished handshake object (the only kind inside an established peer) is never spoiled. NOT proved at node level: that GenericCloud discards a pending object after a fatal error (handle_socket_event: `self.pending_inits.remove(&src)`; sources of the real UdpSocket / proxy are always V6 so the removal key equals the mapped lookup key) - reading',
 ]
 NEG_DRV = {'file': 'native/init_negotiation.rs', 'attach': 'src/crypto/init.rs', 'test': 'negotiated_outcome_matches_the_property'}
+ISO_DRV = {'file': 'native/node_isolation.rs', 'attach': 'src/tests/common.rs', 'test': 'frames_go_exactly_to_the_selected_peers_once_and_are_never_relayed'}
 BASE62_DRV = {'file': 'native/base62_long.rs', 'attach': 'src/util.rs', 'test': 'text_codec_round_trips_long_strings'}
 TABLE_MODEL = {'file': 'native/table_model.rs', 'attach': 'src/table.rs', 'test': 'table_matches_reference_model'}
 
@@ -143,7 +144,8 @@ PROPS['C02'] = {
         ],
     },
     'native_search': {'kani::coreblocks::decrypt_block_contract': {'file': 'native/core_keyid.rs', 'attach': 'src/crypto/core.rs', 'test': 'altered_key_id_is_rejected'},
-                      r'kani::core::decrypt_with_key_contract': WINDOW_DRV},
+                      r'kani::core::decrypt_with_key_contract': WINDOW_DRV,
+                      r'buffer::PeerCrypto::.*': ISO_DRV},
     'trusted': [
         'AEAD axioms (ring): open succeeds only for the key, nonce and ciphertext||tag that seal produced; ring entry points are stubbed by oracles that record key/nonce',
         'unit corekeys: ring objects opaque; secret(bytes) = "came out of SystemRandom::fill" (uninterpreted); R5 pinned statements `rand.fill(&mut data).expect(..)` and `LessSafeKey::new(UnboundKey::new(alg, &data).unwrap())`',
@@ -332,8 +334,11 @@ PROPS['C13'] = {
     'level': 'proof',
     'level_text': 'Proof of the three per-function ingredients of switch learning: (1) Frame::parse yields the per-VLAN key (8-byte vid||mac for a 12-bit VLAN id != 0, 6-byte mac for untagged AND priority-tagged frames, PCP/DEI and nested tags ignored) for every frame (Kani, full content); (2) the learned entry is ClaimTable::cache (last writer wins, expires after the switch timeout, removed by housekeep when expired and by remove_claims when the peer goes) (Verus); (3) the mode table: learning exactly for switch (and normal/tap), never for hub/router (Kani block). The call site `if self.learning { self.table.cache(src, peer) }` is under contract in unit cloud (C10).',
     'verus': [{'unit': 'table', 'fns': ['ClaimTable::cache', 'ClaimTable::housekeep', 'ClaimTable::remove_claims', 'ClaimTable::lookup', 'ClaimTable::new', 'lemma_.*']},
-              {'unit': 'cloud', 'fns': ['GenericCloud::handle_payload_from', 'GenericCloud::handle_message']}],
-    'native_search': {r'table::.*': TABLE_MODEL},
+              {'unit': 'cloud', 'fns': ['GenericCloud::handle_payload_from', 'GenericCloud::handle_message']},
+              # "... or P disconnects": every way a peer leaves the peer map at node level (close message / replacement: remove_peer;
+              # peer timeout: expiry statements of housekeep) clears what was learned from it
+              {'unit': 'peers', 'fns': ['GenericCloud::remove_peer', 'GenericCloud::housekeep_expiry_block', 'lemma_take_contains', 'canary_.*']}],
+    'native_search': {r'table::.*': [TABLE_MODEL, ISO_DRV], r'peers::GenericCloud.*': NODE_PEERS_DRV, r'cloud::.*': ISO_DRV, r'kani::cloudblocks::.*': ISO_DRV},
     'kani': {
         'files': {'src/payload.rs': ['kani/payload.rs'], 'src/cloud.rs': ['kani/cloudblocks.rs.in']},
         'harnesses': [
@@ -342,7 +347,7 @@ PROPS['C13'] = {
             K(CLB, 'table_gets_switch_and_peer_timeouts', 'GenericCloud::new: the table is built with (switch_timeout, peer_timeout)', fns=['cloud::GenericCloud::new (block: ClaimTable::new arguments)']),
         ],
     },
-    'trusted': TABLE_TRUSTED,
+    'trusted': TABLE_TRUSTED + PEERS_TRUSTED,
     'not_decided': ['multi-node histories (frames interleaved with time steps and disconnects across 3-4 nodes): only the per-operation contracts are proved; their composition over histories is by induction on the table view, not machine-checked at node level'],
 }
 
@@ -402,7 +407,12 @@ PROPS['C10'] = {
     'verus': [{'unit': 'cloud'},
               # which peer is "selected" for a frame: the learned / claimed next hop (last writer wins, longest prefix)
               {'unit': 'table', 'fns': ['ClaimTable::cache', 'ClaimTable::lookup']}],
-    'native_search': {r'table::.*': TABLE_MODEL},
+    # who is selected also depends on the two mode flags (flood unknown destinations? learn from traffic?): the mode table of GenericCloud::new
+    'kani': {
+        'files': {'src/cloud.rs': ['kani/cloudblocks.rs.in']},
+        'harnesses': [K(CLB, 'mode_table_matches_documentation', 'GenericCloud::new mode block: unknown destinations are flooded iff hub, switch or normal/tap; learning iff switch or normal/tap; router (and normal/tun) neither floods nor learns', fns=['cloud::GenericCloud::new (block: mode table)'])],
+    },
+    'native_search': {r'table::.*': [TABLE_MODEL, ISO_DRV], r'cloud::.*': ISO_DRV, r'kani::cloudblocks::.*': ISO_DRV},
     'trusted': CLOUD_TRUSTED + TABLE_TRUSTED,
     'not_decided': [
         'exactly-once delivery to every selected peer and to no other (GenericCloud::broadcast_msg iterates a HashMap: no iterator spec in this Verus)',
